@@ -56,7 +56,7 @@ def run(ctx):
     GA = GateAnalysis(ctx, PredGate('supported-type gate', is_type_gate, {'TypeError'}))
     sites = GA.gated_sites(f, _mut_site)
     ung = GA.ungated(f, _mut_site)
-    ctx.floor('C01 effect sites under asarray', len(sites), 6)
+    ctx.floor('C01 effect sites under asarray', len(sites), 4)
     ctx.decide(bool(GA.local_gates(f)) and not ung, 'R-DOM', 'D1', f, None, 'type-gate-dominates',
                f'asarray: the supported-type gate dominates all {len(sites)} reachable file-system effects',
                detail='an unsupported element type is rejected only after something was created on disk: ' +
@@ -105,7 +105,7 @@ def run(ctx):
                    detail='a chunk reaches the file in its own dtype: bytes of mixed item size')
     # D3: yields of the generator
     ys = [n for n in own_nodes(gen.node) if isinstance(n, ast.Yield)]
-    ctx.floor('C01 chunk producers', len(ys), 6)
+    ctx.floor('C01 chunk producers', len(ys), 5)
     for y in ys:
         v = y.value
         ok = isinstance(v, ast.Call) and dotted(v.func) in ('np.asarray', 'np.array') and \
